@@ -140,6 +140,7 @@ int main(int argc, char** argv) {
         os << "{\"e\":\"Reset\"," << posFieldsJ(pos) << "}\n";
         os << "{\"e\":\"State\"," << stateFields(pos) << "}\n";
         std::vector<Frame> stack;
+        int takeBackSoon = 0;
         stack.reserve(512);
         int maxPly = promoBias ? maxPlyArg : 20 + rnd.nextInt(maxPlyArg - 19);
         int steps = 0;
@@ -147,6 +148,7 @@ int main(int argc, char** argv) {
         while (steps < maxPly) {
             steps++;
             int act = rnd.nextInt(100);
+            if (takeBackSoon > 0 && --takeBackSoon == 0) act = 0;      // scheduled take-back (see the same-file double push below)
             bool inNull = false;
             for (auto& f : stack) if (f.kind == 1) inNull = true;
             if (act < 12 && !stack.empty() && !(promoBias && steps < 160)) {
@@ -222,12 +224,20 @@ int main(int argc, char** argv) {
                     if (m.promoteTo() != Piece::EMPTY) w = 40;
                     if ((p == Piece::WKING || p == Piece::BKING) && std::abs(m.to().asInt() - m.from().asInt()) == 2) w = 200;
                     if (pawn && m.to() == pos.getEpSquare()) w = 300;
+                    // a double push answered at once by a double push on the same file, both creating an en-passant square, then taken back:
+                    // the setter sees two different squares with the same file
+                    if (pawn && std::abs(m.to().asInt() - m.from().asInt()) == 16 && pos.getEpSquare().isValid() && pos.getEpSquare().getX() == m.to().getX()) w = 3000;
                 }
                 if (pseudoEpStart && steps <= 2 && pawn && std::abs(m.to().asInt() - m.from().asInt()) == 16) w = 100000;
                 U64 r = (rnd.nextU64() >> 20) % (w * 1000 + 1);
                 if (r >= bestW) { bestW = r; best = i; }
             }
             Frame f; f.kind = 0; f.m = ml[best];
+            {
+                int p0 = pos.getPiece(f.m.from());
+                if ((p0 == Piece::WPAWN || p0 == Piece::BPAWN) && std::abs(f.m.to().asInt() - f.m.from().asInt()) == 16 && pos.getEpSquare().isValid() && rnd.nextInt(2) == 0)
+                    takeBackSoon = 1 + rnd.nextInt(2);
+            }
             pos.makeMove(f.m, f.ui);
             stack.push_back(f);
             os << "{\"e\":\"Mv\",\"m\":" << mvJ(f.m) << "}\n";
